@@ -32,7 +32,7 @@ CHECKS = {
     },
     "C02": {
         "scenarios": [("C02-udp", "vsim"), ("C02-api", "vsim")],
-        "timeout": {"quick": 1500, "thorough": 14000},
+        "timeout": {"quick": 2400, "thorough": 14000},
         "rule": "fault plans over the decoded datagrams of real sessions: positional (one or two scripted rules: drop xN / duplicate / "
                 "delay of the open request, open response, data seq k (any or a specific retransmission), pure acks), random fair loss/"
                 "duplication/jitter per direction, and a window family (8 MB past a pausing reader); crossed with write patterns, MTU per "
@@ -49,7 +49,7 @@ CHECKS = {
                 "sequence-bearing segment, <=5 consecutive pure acks per flow",
         "design_ref": "DESIGN.md section 4, C02",
         "min_obs": {"bytes_compared": 100000, "datagrams_dropped": 10, "retransmissions": 10},
-        "timeout": {"quick": 1200, "thorough": 14000},
+        "timeout": {"quick": 2400, "thorough": 14000},
     },
     "C03": {
         "scenarios": [("C03-close", "vsim"), ("C03-stuck", "vsim"), ("C03-cut", "vsim"), ("C03-late", "vsim"), ("C03-slow", "vsim")],
@@ -71,7 +71,7 @@ CHECKS = {
         "note": "trusted: simnet, reference codec classification of datagrams, faketime runtime; hook point 1 only widens an existing window",
         "design_ref": "DESIGN.md section 4, C03",
         "min_obs": {"clean_eof": 20, "bytes_read": 100000},
-        "timeout": {"quick": 1200, "thorough": 14000},
+        "timeout": {"quick": 2400, "thorough": 14000},
     },
     "C13": {
         "scenarios": [("C02-udp", "vsim"), ("C03-close", "vsim", 0.5), ("C14-sweep", "vsim", 0.5), ("C15-wdeadline", "vsim"), ("C13-closerace", "vreal")],
@@ -87,7 +87,7 @@ CHECKS = {
         "note": "trusted: hub order (a datagram counts as delivered when queued at the receiving socket, under the hub lock), reference codec",
         "design_ref": "DESIGN.md section 4, C13",
         "min_obs": {"acks_checked": 5000, "retransmissions": 100, "seq_groups": 1000},
-        "timeout": {"quick": 1200, "thorough": 14000},
+        "timeout": {"quick": 2400, "thorough": 14000},
     },
     "C14": {
         "scenarios": [("C14-sweep", "vsim"), ("C02-udp", "vsim", 0.5), ("C01-tcp", "vsim", 0.5), ("C02-api", "vsim")],
@@ -104,7 +104,7 @@ CHECKS = {
         "note": "trusted: simnet boundary (datagram length as written by the sender), reference codec",
         "design_ref": "DESIGN.md section 4, C14",
         "min_obs": {"segments": 5000, "max_datagram": 1280},
-        "timeout": {"quick": 1200, "thorough": 14000},
+        "timeout": {"quick": 2400, "thorough": 14000},
     },
     "C04": {
         "scenarios": [("C04-tamper", "vsim"), ("C04-reflect", "vsim")],
@@ -122,7 +122,7 @@ CHECKS = {
         "note": "trusted: simnet mutator stage, reference codec (segment boundaries), faketime runtime",
         "design_ref": "DESIGN.md section 4, C04",
         "min_obs": {"mutations_applied": 100, "bytes_compared": 1000000},
-        "timeout": {"quick": 1200, "thorough": 14000},
+        "timeout": {"quick": 2400, "thorough": 14000},
     },
     "C05": {
         "scenarios": [("C05-probe", "vsim"), ("C05-reflect", "vsim")],
@@ -140,7 +140,7 @@ CHECKS = {
                 "followed by more bytes on the same connection (that would be the genuine handshake with other padding)",
         "design_ref": "DESIGN.md section 4, C05",
         "min_obs": {"probes": 200, "genuine_transfers_completed": 10},
-        "timeout": {"quick": 1200, "thorough": 14000},
+        "timeout": {"quick": 2400, "thorough": 14000},
     },
     "C06": {
         "scenarios": [("C06-replay", "vsim"), ("C06-cross", "vsim"), ("C06-mux", "vsim"), ("C06-fresh", "vsim"), ("C06-nonce", "vsim"), ("C06-cache", "vsim"), ("C06-conc", "vrace")],
@@ -165,7 +165,7 @@ CHECKS = {
         "note": "trusted: simnet, reference decoder (segment boundaries), porcupine, the executable cache specification",
         "design_ref": "DESIGN.md section 4, C06",
         "min_obs": {"replays": 40, "cache_ops": 10000, "history_ops": 2000},
-        "timeout": {"quick": 1200, "thorough": 14000},
+        "timeout": {"quick": 2400, "thorough": 14000},
     },
     "C07": {
         "scenarios": [("C07-registry", "vsim"), ("C07-hook", "vsim"), ("C07-hooke2e", "vsim"), ("C07-e2e", "vsim"), ("C07-reload", "vreal"), ("C07-reload", "vrace", 0.3), ("C01-tcp", "vsim", 0.5), ("C02-udp", "vsim", 0.5)],
@@ -185,7 +185,7 @@ CHECKS = {
         "note": "trusted: reference key derivation and hint computation, the attribution model, monotonic clock for call/return order",
         "design_ref": "DESIGN.md section 4, C07",
         "min_obs": {"discoveries": 10000, "accepted": 2000, "reload_calls": 500},
-        "timeout": {"quick": 1200, "thorough": 14000},
+        "timeout": {"quick": 2400, "thorough": 14000},
     },
     "C11": {
         "scenarios": [("C11-auth", "vsim"), ("C11-cli", "vreal")],
@@ -240,7 +240,7 @@ CHECKS = {
                 "cross-validated against the real code in both directions by this very check",
         "design_ref": "DESIGN.md section 4, C09",
         "min_obs": {"segments": 5000, "bytes_compared": 1000000, "ref_segments_sent": 200},
-        "timeout": {"quick": 1200, "thorough": 14000},
+        "timeout": {"quick": 2400, "thorough": 14000},
     },
     "C08": {
         "scenarios": [("C08-skew", "vsim"), ("C08-client", "vsim"), ("C08-cache", "vsim"), ("C08-predial", "vsim"), ("C08-reuse", "vsim"), ("C08-back", "vtime"), ("C08-skew", "vtime", 0.125), ("C08-client", "vtime", 0.25)],
@@ -278,7 +278,7 @@ CHECKS = {
         "note": "trusted: the driver's crash detection (missing batch-complete marker + panic text in the child's stderr)",
         "design_ref": "DESIGN.md section 4, C10",
         "min_obs": {"hostile_messages": 10000, "canary_completed": 20, "hostile_exchanges": 500},
-        "timeout": {"quick": 900, "thorough": 14000},
+        "timeout": {"quick": 2400, "thorough": 14000},
     },
     "C17": {
         "scenarios": [("C17-codec", "vreal"), ("C17-codec", "vreal", 1.0, {"GODEBUG": "cpu.bmi2=off"}), ("C17-codec", "vrace", 0.1, {"GODEBUG": "cpu.bmi2=off"})],
@@ -321,7 +321,7 @@ CHECKS = {
                 "runs in real time and contributes only race reports and crashes",
         "design_ref": "DESIGN.md section 4, C15",
         "min_obs": {"blocked_calls": 200, "deadline_reads": 100, "deadline_write_loops": 40, "raced_sessions": 20},
-        "timeout": {"quick": 1200, "thorough": 14000},
+        "timeout": {"quick": 2400, "thorough": 14000},
     },
     "C16": {
         "scenarios": [("C16-config", "vsim"), ("C01-tcp", "vsim", 0.5), ("C02-udp", "vsim", 0.75), ("C14-sweep", "vsim", 0.5)],
@@ -379,7 +379,7 @@ CHECKS = {
         "note": "trusted: faketime runtime for multi-week histories; ToMetricPB as the read-out of the history",
         "design_ref": "DESIGN.md section 4, C19",
         "min_obs": {"counter_ops": 50000, "windows_checked": 5000, "accounted_bytes": 1000000, "quota_probes": 50},
-        "timeout": {"quick": 900, "thorough": 14000},
+        "timeout": {"quick": 2400, "thorough": 14000},
     },
     "C20": {
         "scenarios": [("C20-config", "vreal"), ("C20-conc", "vreal")],
